@@ -679,7 +679,82 @@ mod live12 {
                 }
             }
         }
-        json!({"wire_requests": n})
+        // ---- the same over HTTP/2, all requests multiplexed as concurrent streams of one connection
+        let mut h2n = 0u64;
+        {
+            use vh::h2client::*;
+            let mut reqs = vec![];
+            let mut meta: Vec<(String, u16, Option<u64>, String, Option<String>)> = vec![];
+            for rep in 0..3 {
+                for v in values {
+                    for (path, status, num) in [("/ok", 200u16, Some(u64::MAX)), ("/created", 201, Some(1)), ("/accepted", 202, Some(2)), ("/deleted", 204, None), ("/updated", 204, None), ("/headers", 200, Some(3))] {
+                        if path == "/headers" && !legal_header_value(v.as_bytes()) {
+                            continue;
+                        }
+                        reqs.push(H2Req { method: "GET", path: format!("{path}?v={}", pct(v.as_bytes())), headers: vec![], body: vec![] });
+                        meta.push((path.to_string(), status, num, v.to_string(), None));
+                    }
+                    if rep == 0 {
+                        reqs.push(H2Req { method: "GET", path: "/unser?v=x".into(), headers: vec![], body: vec![] });
+                        meta.push(("/unser".into(), 500, None, String::new(), None));
+                    }
+                }
+                for loc in ["/next", "/p?q=1#f", "https://example.com/x"] {
+                    for (path, status) in [("/found", 302u16), ("/see_other", 303), ("/temp", 307)] {
+                        reqs.push(H2Req { method: "GET", path: format!("{path}?v=x&loc={}", pct(loc.as_bytes())), headers: vec![], body: vec![] });
+                        meta.push((path.to_string(), status, None, String::new(), Some(loc.to_string())));
+                    }
+                }
+            }
+            let res = fetch_all(srv.addr, reqs, true, t);
+            for (r, (path, status, num, v, loc)) in res.iter().zip(meta) {
+                h2n += 1;
+                cn.evals.fetch_add(1, Ordering::Relaxed);
+                let mut why: Vec<&str> = vec![];
+                match r {
+                    Err(_) => why.push("no response over HTTP/2"),
+                    Ok(resp) => {
+                        if path == "/unser" {
+                            if resp.status < 500 {
+                                why.push("unserialisable value not answered with a 5xx");
+                            }
+                        } else {
+                            if resp.status != status {
+                                why.push("status");
+                            }
+                            match num {
+                                Some(k) => {
+                                    if resp.header("content-type") != vec![b"application/json".as_ref()] {
+                                        why.push("content-type");
+                                    }
+                                    if serde_json::from_slice::<Out>(&resp.body).ok() != Some(Out { v: v.clone(), n: k }) {
+                                        why.push("body does not parse back to the value");
+                                    }
+                                }
+                                None => {
+                                    if !resp.body.is_empty() {
+                                        why.push("body not empty");
+                                    }
+                                }
+                            }
+                            if path == "/headers" && (resp.header("x-one") != vec![v.as_bytes()] || resp.header("x-two") != vec![b"explicit-two".as_ref()]) {
+                                why.push("declared / explicit headers");
+                            }
+                            if let Some(l) = &loc {
+                                if resp.header("location") != vec![l.as_bytes()] {
+                                    why.push("location");
+                                }
+                            }
+                        }
+                    }
+                }
+                if !why.is_empty() {
+                    ctx.report(Violation { sig: json!({"kind":"wire_response","path": path, "why": why, "transport": "h2"}), case: json!({"kind":"live_request","seam":"wire","path": path, "value": v, "location": loc, "transport": "h2"}), expected: json!({"status": status}),
+                        observed: json!(r.as_ref().map(|x| json!({"status": x.status, "body": String::from_utf8_lossy(&x.body)})).unwrap_or_else(|e| json!(e))) });
+                }
+            }
+        }
+        json!({"wire_requests": n, "http2_requests_multiplexed": h2n})
     }
 }
 
